@@ -146,6 +146,9 @@ def check(prop, tier, seed, out):
                                             "legend": "(caller parks [0..3+], last decrement before the caller finished its own call, unpark before the caller's first park)"}
     out.require("broadcasts", agg["broadcasts"], 200)
     out.require("interleaving_signatures", len(sigset), 4)
+    # a verdict needs most of the planned histories judged: histories lost to deadlocks (C07's business when the property is
+    # C06), crashes or watchdogs make the run undecided, never "held"
+    out.require("judged_native_histories", agg.get("histories", 0), int(0.8 * len(lines)))
     # TSan on real threads
     tl = poolgen.gen(tier, seed + 7, count=(48 if tier == "quick" else 1500))
     tl = [l + " fplog=0" for l in tl]
